@@ -55,6 +55,15 @@ func probeCfg() Cfg {
 	return c
 }
 
+// probeBufNil: does db.BufferBatch.Put(key, nil) read back as deleted in this tree?
+func probeBufNil() bool {
+	w, _ := NewWorld(memoryBackend())
+	defer w.Dispose()
+	w.Exec(Op{K: "newbatch", Idx: true, Wrap: "buffer"})
+	w.Exec(Op{K: "bput", H: 0, Key: []byte{1}, Val: nil, NilB: true})
+	return w.Exec(Op{K: "get", Src: "b0", Key: []byte{1}}) == "notfound"
+}
+
 // ---- running one sequence everywhere ------------------------------------------------------------
 
 type Divergence struct {
@@ -75,10 +84,11 @@ type SeqResult struct {
 }
 
 type Runner struct {
-	drv  *lib.Driver
-	mu   sync.Mutex // the driver is shared
-	cfg  Cfg
-	disk bool
+	drv       *lib.Driver
+	mu        sync.Mutex // the driver is shared
+	cfg       Cfg
+	bufDefect bool // db.BufferBatch.Put(key, nil) reads back as a deletion in this tree
+	disk      bool
 }
 
 func parseDrv(s string) (mem, spec string, ok bool) {
@@ -98,14 +108,179 @@ func allFF(p []byte) bool {
 	return true
 }
 
-func iterClass(p []byte, u bool) string {
-	if u && allFF(p) {
+// iterClass: are these NewIterator arguments, for the probed variant of db/memory, themselves a known
+// way of leaving the contract? (cfg-aware: once a repair is in the tree the arguments are inside
+// the contract and a difference on them is NOT filed under the old finding.)
+func iterClass(cfg Cfg, p []byte, u bool) string {
+	if u && allFF(p) && !cfg.NilUb {
 		return sigNilUB
 	}
-	if !u && len(p) > 0 {
+	if !u && len(p) > 0 && !cfg.LowerBound {
 		return sigPrefix
 	}
 	return ""
+}
+
+// causes tracks, per sequence, WHY a later output may differ from the contract, so that a
+// divergence is attributed to its cause and not to the op that happens to expose it:
+//   - F5 (batch DeleteRange materialised at call time): a live batch that holds a DeleteRange and
+//     under which the store changed is tainted; writing it taints the store; snapshots and
+//     iterators inherit the taint of what they were created from;
+//   - db.BufferBatch given Put(key, nil) (only when the probe found that defect in the tree): same
+//     propagation, applies to every backend;
+//   - iterator bounds / position classes: per iterator handle, only for the probed variant.
+type causes struct {
+	cfg        Cfg
+	bufDefect  bool
+	closed     bool
+	live       map[int]bool
+	hasRange   map[int]bool
+	batchF5    map[int]bool
+	isBuf      map[int]bool
+	batchBuf   map[int]bool
+	nBatches   int
+	dbF5       bool
+	dbBuf      bool
+	snapF5     map[int]bool
+	snapBuf    map[int]bool
+	nSnaps     int
+	iterF5     map[int]bool
+	iterBuf    map[int]bool
+	iterBounds map[int]string
+	iterPos    map[int]string
+	nIters     int
+}
+
+func newCauses(cfg Cfg, bufDefect bool) *causes {
+	return &causes{cfg: cfg, bufDefect: bufDefect, live: map[int]bool{}, hasRange: map[int]bool{}, batchF5: map[int]bool{},
+		isBuf: map[int]bool{}, batchBuf: map[int]bool{}, snapF5: map[int]bool{}, snapBuf: map[int]bool{},
+		iterF5: map[int]bool{}, iterBuf: map[int]bool{}, iterBounds: map[int]string{}, iterPos: map[int]string{}}
+}
+
+func srcHandle(src string) int {
+	var h int
+	fmt.Sscanf(src[1:], "%d", &h)
+	return h
+}
+
+// srcTaint: is what a reader of src sees possibly spoilt by F5 / by the BufferBatch defect?
+func (c *causes) srcTaint(src string) (f5, buf bool) {
+	switch {
+	case src == "db":
+		return c.dbF5, c.dbBuf
+	case strings.HasPrefix(src, "b"):
+		h := srcHandle(src)
+		return c.batchF5[h] || c.dbF5, c.batchBuf[h] || c.dbBuf
+	case strings.HasPrefix(src, "s"):
+		h := srcHandle(src)
+		return c.snapF5[h], c.snapBuf[h]
+	}
+	return false, false
+}
+
+// before returns, for the op about to run: the cause that explains a difference on db/memory, the
+// cause that explains a difference on every backend, and the iterator class of the op (bounds or
+// position; used to decide whether an out-of-contract iterator op is compared at all).
+func (c *causes) before(o Op, okc bool) (memCause, allCause, iterCls string) {
+	f5, buf := false, false
+	switch o.K {
+	case "get", "has", "scan", "iter":
+		f5, buf = c.srcTaint(o.Src)
+		if o.K == "scan" || o.K == "iter" {
+			iterCls = iterClass(c.cfg, o.Key, o.U)
+		}
+	case "update":
+		f5, buf = c.dbF5, c.dbBuf
+		for _, in := range o.Inner {
+			if in.K == "scan" && iterCls == "" {
+				iterCls = iterClass(c.cfg, in.Key, in.U)
+			}
+		}
+	case "first", "next", "prev", "seek", "value":
+		f5, buf = c.iterF5[o.H], c.iterBuf[o.H]
+		if o.K == "first" || o.K == "seek" {
+			delete(c.iterPos, o.H)
+		}
+		if o.K == "prev" && !okc && !c.cfg.PrevFix && !c.closed && c.iterPos[o.H] == "" {
+			c.iterPos[o.H] = sigPrevFirst
+		}
+		if o.K == "next" && !okc && !c.cfg.NextClamp && !c.closed && c.iterPos[o.H] == "" {
+			c.iterPos[o.H] = sigNextEnd
+		}
+		if t := c.iterBounds[o.H]; t != "" {
+			iterCls = t
+		} else {
+			iterCls = c.iterPos[o.H]
+		}
+	}
+	if buf {
+		allCause = sigBufNil
+	}
+	switch {
+	case f5:
+		memCause = sigBatchDR
+	case buf:
+		memCause = sigBufNil
+	default:
+		memCause = iterCls
+	}
+	return memCause, allCause, iterCls
+}
+
+// after updates the bookkeeping once the op ran.
+func (c *causes) after(o Op) {
+	storeChanged := func(except int) {
+		if c.closed {
+			return
+		}
+		for b, l := range c.live {
+			if l && b != except && c.hasRange[b] {
+				c.batchF5[b] = true
+			}
+		}
+	}
+	switch o.K {
+	case "newbatch":
+		c.live[c.nBatches] = true
+		c.isBuf[c.nBatches] = o.Idx && o.Wrap == "buffer"
+		c.nBatches++
+	case "bdelrange":
+		if c.live[o.H] {
+			c.hasRange[o.H] = true
+		}
+	case "bput":
+		if c.bufDefect && c.live[o.H] && c.isBuf[o.H] && len(o.Val) == 0 && o.NilB {
+			c.batchBuf[o.H] = true
+		}
+	case "put", "del", "delrange":
+		storeChanged(-1)
+	case "update":
+		if !o.Fail {
+			storeChanged(-1)
+		}
+	case "bwrite":
+		if c.live[o.H] && !c.closed {
+			storeChanged(o.H)
+			c.dbF5 = c.dbF5 || c.batchF5[o.H]
+			c.dbBuf = c.dbBuf || c.batchBuf[o.H]
+			c.live[o.H] = false
+		}
+	case "bclose":
+		c.live[o.H] = false
+	case "snap":
+		if !c.closed {
+			c.snapF5[c.nSnaps], c.snapBuf[c.nSnaps] = c.dbF5, c.dbBuf
+			c.nSnaps++
+		}
+	case "iter":
+		c.iterF5[c.nIters], c.iterBuf[c.nIters] = c.srcTaint(o.Src)
+		if cls := iterClass(c.cfg, o.Key, o.U); cls != "" {
+			c.iterBounds[c.nIters] = cls
+		}
+		c.nIters++
+	case "close":
+		c.closed = true
+	}
 }
 
 // Run executes ops on the three real backends and on the Lean models and compares.
@@ -134,76 +309,21 @@ func (rn *Runner) Run(ops []Op) (*SeqResult, error) {
 		defer w.Dispose()
 		bst = append(bst, &bstate{w: w, deadIter: map[int]bool{}})
 	}
-	iterTaint := map[int]string{} // memory: iterator handle -> known class of its bounds (permanent)
-	posTaint := map[int]string{}  // memory: iterator handle -> known class of its position (until First/Seek)
+	cs := newCauses(rn.cfg, rn.bufDefect)
 	iterOrigin := map[int]string{} // live iterator handle -> source it was created from
-	bufBatch := map[int]bool{}     // batch handle -> wrapped in db.BufferBatch
-	bufTaint := map[int]bool{}     // ... and was given Put(key, nil)
-	allTaint := ""                 // known class that applies to every backend from here on
-	nBatches := 0
 	orphan := map[int]bool{}       // iterators whose batch / snapshot was closed under them
-	seqTaint := ""
 	nIters := 0
 	for i, o := range ops {
 		memModel, spec, okc := parseDrv(ans[i])
 		if !okc {
 			sr.InContract = false
 		}
-		// classification of this step for db/memory
-		class := ""
-		switch o.K {
-		case "iter", "scan":
-			class = iterClass(o.Key, o.U)
-			if o.K == "iter" {
-				if class != "" {
-					iterTaint[nIters] = class
-				}
-				iterOrigin[nIters] = o.Src
-				nIters++
-			}
-		case "update":
-			for _, in := range o.Inner {
-				if in.K == "scan" && class == "" {
-					class = iterClass(in.Key, in.U)
-				}
-			}
-			if !okc && class == "" {
-				seqTaint, class = sigBatchDR, sigBatchDR
-			}
-		case "put", "del", "delrange", "bwrite":
-			if !okc {
-				seqTaint, class = sigBatchDR, sigBatchDR
-			}
-		case "newbatch":
-			if o.Wrap == "buffer" && o.Idx {
-				bufBatch[nBatches] = true
-			}
-			nBatches++
-		case "bput":
-			if bufBatch[o.H] && len(o.Val) == 0 && o.NilB {
-				bufTaint[o.H] = true
-			}
-		case "first", "seek":
-			delete(posTaint, o.H)
-		case "prev":
-			if !okc && posTaint[o.H] == "" {
-				posTaint[o.H] = sigPrevFirst
-			}
-		case "next":
-			if !okc && posTaint[o.H] == "" {
-				posTaint[o.H] = sigNextEnd
-			}
-		}
-		switch o.K {
-		case "first", "next", "prev", "seek", "value":
-			if t, ok := iterTaint[o.H]; ok {
-				class = t
-			} else if t, ok := posTaint[o.H]; ok {
-				class = t
-			}
-		}
+		memCause, allCause, iterCls := cs.before(o, okc)
 		skipCross := false
 		switch o.K {
+		case "iter":
+			iterOrigin[nIters] = o.Src
+			nIters++
 		case "iclose":
 			delete(iterOrigin, o.H)
 		case "bwrite", "bclose", "sclose":
@@ -230,26 +350,19 @@ func (rn *Runner) Run(ops []Op) (*SeqResult, error) {
 				// iterator, handles used after the store was closed): not compared across backends
 				skipCross = true
 			case "iter", "scan", "first", "seek", "next", "prev":
-				if class == "" {
+				if iterCls == "" {
 					skipCross = true
 				}
 			}
 		}
-		if o.K == "bwrite" && bufTaint[o.H] {
-			allTaint = sigBufNil
-		}
-		bufAffected := allTaint != ""
-		if o.K == "get" && strings.HasPrefix(o.Src, "b") {
-			var h int
-			fmt.Sscanf(o.Src, "b%d", &h)
-			bufAffected = bufAffected || bufTaint[h]
-		}
+		// db.BufferBatch is not part of the Mem model: reads it may have spoilt are left out of the
+		// model correspondence
+		bufAffected := cs.dbBuf || allCause != ""
 		for bi, b := range bst {
 			out := b.w.Exec(o)
 			sr.Outs[b.w.name] = append(sr.Outs[b.w.name], out)
 			if bi == 0 && !bufAffected {
-				// correspondence: Lean Mem model vs real db/memory (always, also outside the contract;
-				// db.BufferBatch is not part of the Mem model, so reads it may have spoilt are left out)
+				// correspondence: Lean Mem model vs real db/memory (always, also outside the contract)
 				sr.Compared++
 				if out != memModel {
 					sr.Mismatches = append(sr.Mismatches, lib.Mismatch{Sig: "mem-model:" + o.K,
@@ -269,22 +382,14 @@ func (rn *Runner) Run(ops []Op) (*SeqResult, error) {
 			if out == spec {
 				continue
 			}
-			sig := allTaint
-			if o.K == "get" && strings.HasPrefix(o.Src, "b") {
-				var h int
-				fmt.Sscanf(o.Src, "b%d", &h)
-				if bufTaint[h] {
-					sig = sigBufNil
-				}
-			}
-			if sig != "" {
-			} else if bi == 0 {
-				sig = class
-				if sig == "" {
-					sig = seqTaint
-				}
-			} else if o.K == "has" && strings.HasPrefix(o.Src, "s") && spec == "false" && out == "err:pebble-notfound" {
+			sig := ""
+			switch {
+			case bi == 0:
+				sig = memCause
+			case o.K == "has" && strings.HasPrefix(o.Src, "s") && spec == "false" && out == "err:pebble-notfound":
 				sig = sigSnapHas
+			default:
+				sig = allCause
 			}
 			if sig == "" {
 				sig = b.w.name + "-differs-from-contract:" + o.K
@@ -299,6 +404,7 @@ func (rn *Runner) Run(ops []Op) (*SeqResult, error) {
 				b.stopped = true
 			}
 		}
+		cs.after(o)
 	}
 	return sr, nil
 }
@@ -560,7 +666,7 @@ func main() {
 		"non-trivial = distinct sequence with >= 8 ops that uses a batch, snapshot or iterator")
 	// lib.NewRNG(s) and lib.NewRNG(s+1) are the same SplitMix stream shifted by one: scramble the seed
 	// first so that different --seed values give unrelated sequences
-	r := lib.NewRNG(lib.NewRNG(f.Seed*0x2545F4914F6CDD1D + 0x9E3779B9).Uint64() ^ f.Seed<<32)
+	r := lib.NewRNG(lib.NewRNG(f.Seed*0x2545F4914F6CDD1D+0x9E3779B9).Uint64() ^ f.Seed<<32)
 	drv, err := lib.StartDriver(f.Driver)
 	if err != nil {
 		res.Note("driver: %v", err)
@@ -578,7 +684,8 @@ func main() {
 		res.Note("driver rejected cfg: %v %q", err, a)
 		finish(f, res)
 	}
-	rn := &Runner{drv: drv, cfg: cfg}
+	rn := &Runner{drv: drv, cfg: cfg, bufDefect: probeBufNil()}
+	res.Note("db.BufferBatch nil-value defect present in this tree: %v", rn.bufDefect)
 
 	runOne := func(ops []Op, label string) {
 		sr, err := rn.Run(ops)
